@@ -6,6 +6,7 @@ use crate::engine::core::read::cache::GlobalIndexCatalogCache;
 use crate::engine::core::read::catalog::IndexKind;
 use crate::engine::core::read::query_plan::QueryPlan;
 use crate::engine::core::zone::rlte_index::RlteIndex;
+use crate::engine::schema::FieldType;
 use crate::shared::config::CONFIG;
 use tracing::debug;
 
@@ -65,6 +66,26 @@ impl RlteCatalog {
             .unwrap_or(0)
     }
 
+    /// Zones that have no ladder for `field` (no row of the zone carries it): every zone has a
+    /// "timestamp" ladder, so these are the timestamp zones missing from the field's ladders.
+    fn zones_without_field(&self, field: &str) -> Vec<ZoneKey> {
+        let with_field: std::collections::HashSet<&ZoneKey> = self
+            .fields
+            .get(field)
+            .map(|cf| cf.ladders.iter().map(|(zk, _)| zk).collect())
+            .unwrap_or_default();
+        self.fields
+            .get("timestamp")
+            .map(|cf| {
+                cf.ladders
+                    .iter()
+                    .filter(|(zk, _)| !with_field.contains(zk))
+                    .map(|(zk, _)| zk.clone())
+                    .collect()
+            })
+            .unwrap_or_default()
+    }
+
     // ── numeric helpers ───────────────────────────────────────────────────────
 
     /// Parse ladder into sorted numeric values (u64). Returns empty vec if none parse.
@@ -85,8 +106,10 @@ impl RlteCatalog {
             return (0, 0);
         }
         let nums = Self::ladder_as_numbers(ladder);
-        if nums.is_empty() {
-            return (0, 0);
+        if nums.len() < ladder.len() {
+            // null / missing values (ladder entries "null" / "") cannot be placed relative to t:
+            // nothing is known about such a zone, so it is never pruned
+            return (0, zone_size);
         }
         let min = nums[0];
         let max = *nums.last().unwrap();
@@ -549,6 +572,23 @@ pub async fn plan_with_rlte(
     }
     let uid = plan.event_type_uid().await?;
 
+    // Float ladders are written as `{:+025.10e}` strings (Event::get_field_value_sortable), which
+    // sort neither numerically nor lexicographically: no pre-selection for float fields
+    let is_float = match plan
+        .registry
+        .read()
+        .await
+        .get(plan.event_type())
+        .and_then(|schema| schema.field_type(&field))
+    {
+        Some(FieldType::F64) => true,
+        Some(FieldType::Optional(inner)) => **inner == FieldType::F64,
+        _ => false,
+    };
+    if is_float {
+        return None;
+    }
+
     // Load RLTE and build catalog
     let mut catalog = RlteCatalog::new();
     let mut loaded_fields = 0usize;
@@ -604,6 +644,12 @@ pub async fn plan_with_rlte(
             // No viable zones remain after applying WHERE → skip RLTE
             return None;
         }
+    }
+
+    // Rows of a zone without a ladder have no value for the field (they sort as nulls) and
+    // nothing bounds them: such zones are always scanned
+    for zk in catalog.zones_without_field(&field) {
+        candidates.push((zk, (0, zone_size), String::new()));
     }
 
     // Partition by shard → PickedZones (what the worker will honor)
